@@ -5,6 +5,7 @@ import (
 	"crypto/sha256"
 	"encoding/json"
 	"fmt"
+	"io"
 	"reflect"
 
 	"github.com/foxboron/go-uefi/efi/signature"
@@ -33,7 +34,22 @@ var dbOwners = []util.EFIGUID{
 	{Data1: 0xc1095e1b, Data2: 0x8a3b, Data3: 0x4cf5, Data4: [8]byte{0x9d, 0x4a, 0xaf, 0xc7, 0xd7, 0x5d, 0xca, 0x68}},
 	{Data1: 0x77fa9abd, Data2: 0x0359, Data3: 0x4d32, Data4: [8]byte{0xbd, 0x60, 0x28, 0xf4, 0xe7, 0x8f, 0x78, 0x4b}},
 	{Data1: 0x00000000, Data2: 0x0000, Data3: 0x0000, Data4: [8]byte{0, 0, 0, 0, 0, 0, 0, 1}},
+	// owners that differ from the first one in exactly one field (a comparison that skips a field takes them for it)
+	{Data1: 0xc1095e1b, Data2: 0x8a3c, Data3: 0x4cf5, Data4: [8]byte{0x9d, 0x4a, 0xaf, 0xc7, 0xd7, 0x5d, 0xca, 0x68}},
+	{Data1: 0xc1095e1b, Data2: 0x8a3b, Data3: 0x4cf4, Data4: [8]byte{0x9d, 0x4a, 0xaf, 0xc7, 0xd7, 0x5d, 0xca, 0x68}},
+	{Data1: 0xc1095e1a, Data2: 0x8a3b, Data3: 0x4cf5, Data4: [8]byte{0x9d, 0x4a, 0xaf, 0xc7, 0xd7, 0x5d, 0xca, 0x68}},
+	{Data1: 0xc1095e1b, Data2: 0x8a3b, Data3: 0x4cf5, Data4: [8]byte{0x9d, 0x4a, 0xaf, 0xc7, 0xd7, 0x5d, 0xca, 0x69}},
+	{Data1: 0xc1095e1b, Data2: 0x8a3b, Data3: 0x4cf5, Data4: [8]byte{0x9c, 0x4a, 0xaf, 0xc7, 0xd7, 0x5d, 0xca, 0x68}},
 }
+
+// dbOwnerSets: which three owners a run uses (index into dbOwners). Set 0 is three unrelated GUIDs; the others pair the first
+// owner with GUIDs that differ from it in one field only.
+var dbOwnerSets = [][3]int{{0, 1, 2}, {0, 3, 4}, {0, 5, 6}, {0, 7, 1}, {3, 0, 4}}
+
+// dbOwnerSet is the set of the run that is executing (one run at a time per worker process).
+var dbOwnerSet = 0
+
+func dbOwner(i int) util.EFIGUID { return dbOwners[dbOwnerSets[dbOwnerSet%len(dbOwnerSets)][i%3]] }
 
 func dbData(i int) []byte {
 	mk := func(n int, tag byte) []byte {
@@ -139,8 +155,9 @@ type dbOp struct {
 }
 
 type dbCfg struct {
-	Start string       `json:"start"` // "" (empty) | fixture name | "gen"
-	Gen   []dbListSpec `json:"gen,omitempty"`
+	Owners int          `json:"owner_set,omitempty"` // which owner GUIDs o0..o2 stand for (dbOwnerSets)
+	Start  string       `json:"start"`               // "" (empty) | fixture name | "gen"
+	Gen    []dbListSpec `json:"gen,omitempty"`
 }
 
 type dbhistEngine struct{}
@@ -182,6 +199,9 @@ func (e *dbhistEngine) Gen(seed uint64, tier string, run int) *Trace {
 	opw[0] |= 1
 	names := []string{"Append", "AppendSignature", "Remove", "RemoveSignature", "BytesExists", "SigDataExists", "Exists", "AppendList", "AppendDatabase", "Restart", "Swap"}
 	var c dbCfg
+	if or := r.Fork("owners"); or.Chance(1, 3) {
+		c.Owners = 1 + or.Intn(len(dbOwnerSets)-1)
+	}
 	switch r.Intn(6) {
 	case 0:
 		c.Start = Pick(r, dbFixtures)
@@ -213,7 +233,7 @@ func (e *dbhistEngine) Gen(seed uint64, tier string, run int) *Trace {
 				op.Lists = append(op.Lists, genListSpec(r, types, nown, false))
 			}
 		case "Restart":
-			op.D = r.Intn(3)
+			op.D = r.Intn(4)
 		case "Swap":
 			op.D = r.Intn(4)
 		default:
@@ -324,7 +344,7 @@ type dbEntry struct {
 func entryOf(t, o int, data []byte) dbEntry {
 	var e dbEntry
 	copy(e.T[:], refGUIDWire(dbTypes[t].G))
-	copy(e.O[:], refGUIDWire(dbOwners[o]))
+	copy(e.O[:], refGUIDWire(dbOwner(o)))
 	e.D = string(data)
 	return e
 }
@@ -470,7 +490,7 @@ func buildList(x *X, i int, kind string, spec dbListSpec) (*signature.SignatureL
 		before := listSnapshot(l)
 		dup := false
 		for _, s := range l.Signatures {
-			if s.Owner == dbOwners[it.O] && bytes.Equal(s.Data, stored) {
+			if s.Owner == dbOwner(it.O) && bytes.Equal(s.Data, stored) {
 				dup = true
 			}
 		}
@@ -480,9 +500,9 @@ func buildList(x *X, i int, kind string, spec dbListSpec) (*signature.SignatureL
 		how := "AppendBytes"
 		if (it.O+it.D+len(l.Signatures))%2 == 1 {
 			how = "AppendSignature"
-			err = l.AppendSignature(signature.SignatureData{Owner: dbOwners[it.O], Data: append([]byte(nil), data...)})
+			err = l.AppendSignature(signature.SignatureData{Owner: dbOwner(it.O), Data: append([]byte(nil), data...)})
 		} else {
-			err = l.AppendBytes(dbOwners[it.O], append([]byte(nil), data...))
+			err = l.AppendBytes(dbOwner(it.O), append([]byte(nil), data...))
 		}
 		x.Logf("   list.%s(%s, o%d, d%d) -> %v", how, typeSig(spec.T), it.O, it.D, err)
 		sig := map[string]string{"level": "list", "type": typeSig(spec.T), "dup": fmt.Sprint(dup), "wrong_size": fmt.Sprint(wrongSize), "pem": fmt.Sprint(dbIsPEM(spec.T, it.D))}
@@ -514,18 +534,18 @@ func buildList(x *X, i int, kind string, spec dbListSpec) (*signature.SignatureL
 			fail("dbhist.wrong_size_append_is_error", "list-level append of %d data bytes into a list of SignatureSize %d (type %s) succeeded", len(stored), l.Size, typeSig(spec.T))
 			return nil, false
 		}
-		if !listHas(l, dbOwners[it.O], stored) {
+		if !listHas(l, dbOwner(it.O), stored) {
 			fail("dbhist.append_adds_one_entry", "list-level append succeeded but the list does not hold the entry (PEM stored as DER expected: %v)", dbIsPEM(spec.T, it.D))
 			return nil, false
 		}
 	}
 	for _, it := range spec.Rm {
 		data := dbData(it.D)
-		present := listHas(l, dbOwners[it.O], data)
-		ambig := dbIsPEM(spec.T, it.D) && listHas(l, dbOwners[it.O], dbNorm(spec.T, it.D))
+		present := listHas(l, dbOwner(it.O), data)
+		ambig := dbIsPEM(spec.T, it.D) && listHas(l, dbOwner(it.O), dbNorm(spec.T, it.D))
 		before := listSnapshot(l)
 		nb := len(l.Signatures)
-		err := l.RemoveBytes(dbOwners[it.O], append([]byte(nil), data...))
+		err := l.RemoveBytes(dbOwner(it.O), append([]byte(nil), data...))
 		x.Logf("   list.RemoveBytes(%s, o%d, d%d) present=%v -> %v", typeSig(spec.T), it.O, it.D, present, err)
 		sig := map[string]string{"level": "list", "type": typeSig(spec.T), "op": "remove"}
 		fail := func(oracle, format string, a ...any) {
@@ -553,7 +573,7 @@ func buildList(x *X, i int, kind string, spec dbListSpec) (*signature.SignatureL
 			fail("dbhist.remove_deletes_one_entry", "list-level remove: %d entries before, %d after", nb, len(l.Signatures))
 			return nil, false
 		}
-		if present && listHas(l, dbOwners[it.O], data) {
+		if present && listHas(l, dbOwner(it.O), data) {
 			fail("dbhist.remove_deletes_one_entry", "list-level remove succeeded but the entry is still in the list")
 			return nil, false
 		}
@@ -620,6 +640,8 @@ func (e *dbhistEngine) Exec(tr *Trace, x *X) {
 	if err != nil {
 		harnessf("dbhist ops: %v", err)
 	}
+	dbOwnerSet = c.Owners
+	defer func() { dbOwnerSet = 0 }()
 	db := signature.NewSignatureDatabase()
 	// ---- start state ----
 	switch c.Start {
@@ -643,7 +665,7 @@ func (e *dbhistEngine) Exec(tr *Trace, x *X) {
 				}
 				seen[k] = true
 				var s RefSig
-				copy(s.Owner[:], refGUIDWire(dbOwners[it.O]))
+				copy(s.Owner[:], refGUIDWire(dbOwner(it.O)))
 				s.Data = d
 				l.Sigs = append(l.Sigs, s)
 			}
@@ -683,6 +705,8 @@ func (e *dbhistEngine) Exec(tr *Trace, x *X) {
 
 	mut := 0
 	nonEmpty := false
+	var heldEnc, heldCopy []byte
+	heldAt := 0
 	var aux []*signature.SignatureDatabase // databases that were merged into db and are still alive
 	for i, op := range ops {
 		if x.Failed() {
@@ -708,7 +732,7 @@ func (e *dbhistEngine) Exec(tr *Trace, x *X) {
 			defer func() { pv = recover() }()
 			switch op.Op {
 			case "Append", "AppendSignature":
-				tg, og := dbTypes[op.T].G, dbOwners[op.O]
+				tg, og := dbTypes[op.T].G, dbOwner(op.O)
 				data := append([]byte(nil), dbData(op.D)...)
 				stored := dbNorm(op.T, op.D)
 				e := entryOf(op.T, op.O, stored)
@@ -769,7 +793,7 @@ func (e *dbhistEngine) Exec(tr *Trace, x *X) {
 				}
 				mut++
 			case "Remove", "RemoveSignature":
-				tg, og := dbTypes[op.T].G, dbOwners[op.O]
+				tg, og := dbTypes[op.T].G, dbOwner(op.O)
 				data := append([]byte(nil), dbData(op.D)...)
 				e := entryOf(op.T, op.O, data)
 				present := viewHas(before, e)
@@ -819,7 +843,7 @@ func (e *dbhistEngine) Exec(tr *Trace, x *X) {
 				}
 				mut++
 			case "BytesExists", "SigDataExists":
-				tg, og := dbTypes[op.T].G, dbOwners[op.O]
+				tg, og := dbTypes[op.T].G, dbOwner(op.O)
 				data := append([]byte(nil), dbData(op.D)...)
 				want := viewHas(before, entryOf(op.T, op.O, data))
 				ambig := dbIsPEM(op.T, op.D) && viewHas(before, entryOf(op.T, op.O, dbNorm(op.T, op.D)))
@@ -958,7 +982,12 @@ func (e *dbhistEngine) Exec(tr *Trace, x *X) {
 				backing := cbuf.Bytes()
 				var got signature.SignatureDatabase
 				var err error
-				switch op.D % 3 {
+				switch op.D % 4 {
+				case 3:
+					// a reader that delivers a few bytes at a time (a pipe, a socket, a buffered file): legal, and every
+					// decoder has to cope with it
+					got, err = signature.ReadSignatureDatabase(&shortReader{r: cbuf, n: 1 + (i*7)%13})
+					x.Probe("restart_through_short_reads")
 				case 0:
 					got, err = signature.ReadSignatureDatabase(cbuf)
 				case 1:
@@ -1036,6 +1065,16 @@ func (e *dbhistEngine) Exec(tr *Trace, x *X) {
 			sig["bad_list"] = dbBadListClass(db)
 			fail(o, "after the operation: %s", d)
 			return
+		}
+		// an encoding the caller kept from an earlier step is still what it was (two encodings alive at once)
+		if heldEnc != nil && !bytes.Equal(heldEnc, heldCopy) {
+			fail("dbhist.kept_encoding_stays_valid", "the bytes Bytes() returned %d operation(s) ago changed afterwards: were %s, are now %s", i-heldAt, shortHex(heldCopy), shortHex(heldEnc))
+			return
+		}
+		if i%3 == 0 || heldEnc == nil {
+			heldEnc = db.Bytes()
+			heldCopy = append([]byte(nil), heldEnc...)
+			heldAt = i
 		}
 		// a database changes under its own operations (and through lists it shares with the database operated on), never otherwise:
 		// the sequence of lists of every other live database is what it was, and so is every list that the operated database does not hold
@@ -1157,4 +1196,17 @@ func dbLostClass(before, after []dbEntry) string {
 		return "extmgmt_only"
 	}
 	return "other"
+}
+
+// shortReader delivers at most n bytes per Read.
+type shortReader struct {
+	r io.Reader
+	n int
+}
+
+func (s *shortReader) Read(p []byte) (int, error) {
+	if len(p) > s.n {
+		p = p[:s.n]
+	}
+	return s.r.Read(p)
 }
